@@ -23,6 +23,8 @@
     the name checker up to [n] bytes, those bytes are the wire form of labels [ls], and the three record lists afterwards are
     the old ones with exactly that record's owner labels replaced by [ls] (growing, shrinking or equal length), counts and
     flag word as they were, [dinv] kept.
+    The address setter (C09_set_ip_on_decompressed): a successful set_rr_ip means the record is an A record given 4 bytes or an
+    AAAA record given 16, and the reading afterwards is the old one with exactly that record's data replaced by them.
     For the other operations the refinement to the abstract message operations is decided each
     run by the correspondence and the abstract-effect oracle (gen/hist.py).  Also proved: the byte
     level effect of insertion (the record is spliced at the insertion offset of the packet with one
@@ -36,7 +38,7 @@
     second record in the implementation (known finding data-pointer). *)
 From DV Require Import Model.Base Model.NameCheck Model.Parser Model.Header Model.Readers Model.Uncompress
   Model.Mutate Spec.NameSpec Spec.PacketSpec Spec.RecordSpec Proofs.Hoare Proofs.HeaderBits Proofs.InsertLemmas
-  Spec.PlainSpec Proofs.WalkValues Proofs.SetTtl Proofs.WalkSkip Proofs.PlainWf Proofs.InsertSpec Proofs.SetTtlInv Proofs.DeleteInv Proofs.SetNameInv.
+  Spec.PlainSpec Proofs.WalkValues Proofs.SetTtl Proofs.WalkSkip Proofs.PlainWf Proofs.InsertSpec Proofs.SetTtlInv Proofs.DeleteInv Proofs.SetNameInv Proofs.ReplaceInv.
 From Coq Require Import Lia.
 
 Theorem C09_insert_appends : forall sec rr v it s',
@@ -260,3 +262,17 @@ Example C09_set_name_vocabulary :
                 rv_ttl (rv_with_labels r ls) = rv_ttl r) /\
   (forall ls, name_ok ls <-> Forall ReadersLabels.label_ok ls /\ length (wire_of_labels ls) <= 255 /\ bytes_ok (wire_of_labels ls)).
 Proof. split; [reflexivity|]. split; [intros; repeat split; reflexivity|]. intros ls. unfold name_ok. tauto. Qed.
+
+Theorem C09_set_ip_on_decompressed : forall v it ip s' qls qt lA lN lR r x,
+  dinv v -> bytes_ok ip -> reading (pp_packet v) qls qt lA lN lR -> In (r, x) (lA ++ lN ++ lR) ->
+  it_offset it = Some (rv_off r) -> it_name_end it = rv_name_end r ->
+  m_set_ip ip (v, it) = (s', Ok tt) ->
+  dinv (fst s') /\ snd s' = it /\ ip_type_len (rv_type r) (length ip) /\
+  exists lA' lN' lR' L1 L2, reading (pp_packet (fst s')) qls qt lA' lN' lR' /\
+    length lA' = length lA /\ length lN' = length lN /\ length lR' = length lR /\
+    lA ++ lN ++ lR = L1 ++ (r, x) :: L2 /\ lA' ++ lN' ++ lR' = L1 ++ (rv_at r (RdRaw ip) (rv_off r), RdRaw ip) :: L2.
+Proof. exact set_ip_keeps_dinv. Qed.
+Print Assumptions C09_set_ip_on_decompressed.
+
+Example C09_ip_type_len_means : forall t n, ip_type_len t n <-> (t = TYPE_A /\ n = 4) \/ (t = TYPE_AAAA /\ n = 16).
+Proof. intros. unfold ip_type_len. tauto. Qed.
